@@ -18,6 +18,7 @@ while IFS=$'\t' read -r id st fired keys; do
   key=$(printf '%s' "$keys" | tr ';' '\n' | sed 's/^ *//' | grep "^$pick:" | head -1 | sed "s/^$pick://")
   [ -n "$key" ] || continue
   cp seeded/$id/patch.diff selftest/mutants/seed_$id.patch
+  if jq -r '.demo_cmd // ""' seeded/$id/meta.json | grep -q "GOARCH=386"; then pick="$pick@thorough"; fi
   printf '%s %s\n' "$pick" "$key" > selftest/mutants/seed_$id.expect
   n=$((n+1))
 done < seeded/results.tsv
